@@ -182,8 +182,33 @@ def r1(prog, rep):
     idx = re.findall(r"\{(\d+):", fmt or "")
     ok = ok and idx[-3:] == ["4", "5", "6"] and fmt.endswith(K("\n"))
     rep.ob("R1", "header ends with idum, nx, ny", ok, w.site(), repr(fmt), key="order/header-written")
-    ok = K("words=header.split()") in rsrc and K("idum=int(words[-3])") in rsrc and K("nx=int(words[-2])") in rsrc and K("ny=int(words[-1])") in rsrc
+    hdr_ints = _header_ints(mod, r) if False else _header_ints(prog.module(GEQ), r)
+    ok = K("words=header.split()") in rsrc and hdr_ints == {"idum": "int(words[-3])", "nx": "int(words[-2])", "ny": "int(words[-1])"}
     rep.ob("R1", "reader takes idum, nx, ny from the last three words of the header", ok, r.site(), "", key="order/header-read")
+
+
+def _header_ints(mod, r):
+    """what idum, nx, ny are bound to in the reader: `nx = int(words[-2])`, or the k-th target of an
+    unpacking of `(int(w) for w in words[-3:])` / `map(int, words[-3:])` (element k of words[-3:]
+    is words[-3+k])"""
+    from ..elements import element, NoElement
+    out = {}
+    for st in walk_own(r.node):
+        if not isinstance(st, ast.Assign) or len(st.targets) != 1:
+            continue
+        t = st.targets[0]
+        if isinstance(t, ast.Name) and t.id in ("idum", "nx", "ny"):
+            out[t.id] = T(mod, st.value)
+        elif isinstance(t, ast.Tuple) and all(isinstance(e, ast.Name) for e in t.elts) and {e.id for e in t.elts} & {"idum", "nx", "ny"}:
+            try:
+                el = element(r.node, st.value)
+            except NoElement:
+                continue
+            m = re.fullmatch(r"int\(<words\[-(\d+)\+i\]>\)", el) if isinstance(el, str) else None
+            if m and int(m.group(1)) == len(t.elts):
+                for k, e in enumerate(t.elts):
+                    out[e.id] = "int(words[%d])" % (k - len(t.elts))
+    return out
 
 
 def _parent_if(root, node):
@@ -231,7 +256,18 @@ def r2(prog, rep):
     if w2 is None or r2f is None:
         raise AnalysisError("write_2d/read_2d not found")
 
+    from ..elements import loop_env, value, NoElement
+    from ..model import inline_temporaries
+
+    def norm_index(t):
+        # X[:,b][a] and X[a][b] are X[a,b] (integer indices into an array)
+        import re as _re
+        t = _re.sub(r"(\w+)\[:,([^\[\]]+)\]\[([^\[\]]+)\]", r"\1[\3,\2]", t)
+        return _re.sub(r"(\w+)\[([^\[\]:,]+)\]\[([^\[\]:,]+)\]", r"\1[\2,\3]", t)
+
     def nest(mod_, f):
+        """(outer extent, inner extent, statements of the inner body with the loop variables named
+        <outer> / <inner> and temporaries seen through)"""
         outer = [n for n in f.node.body if isinstance(n, ast.For)]
         if len(outer) != 1:
             return None
@@ -240,24 +276,101 @@ def r2(prog, rep):
         if len(inner) != 1:
             return None
         i = inner[0]
-        body = [T(mod_, s) for s in i.body]
-        return (T(mod_, o.target), T(mod_, o.iter), T(mod_, i.target), T(mod_, i.iter), body)
+        if not (isinstance(o.target, ast.Name) and isinstance(i.target, ast.Name)):
+            return None
+        ext = lambda it: T(mod_, it.args[0]) if isinstance(it, ast.Call) and T(mod_, it.func) == "range" and len(it.args) == 1 else "?" + T(mod_, it)
+        ren = {o.target.id: "<outer>", i.target.id: "<inner>"}
+        body = []
+        for st in i.body:
+            st2 = inline_temporaries(f.node, st, keep=tuple(ren))
+            for x in ast.walk(st2):
+                if isinstance(x, ast.Name) and x.id in ren:
+                    x.id = ren[x.id]
+            body.append(norm_index(T(mod_, st2)))
+        return (ext(o.iter), ext(i.iter), body)
 
     a, b = nest(mod, w2), nest(gm, r2f)
-    ok = a == ("y", K("range(ny)"), "x", K("range(nx)"), [K("out.write(val[x,y])")])
+    ok = a == ("ny", "nx", ["out.write(val[<inner>,<outer>])"])
     rep.ob("R2", "write_2d: y outer, x inner, element [x, y]", ok, w2.site(), str(a), key="nest/write")
-    ok = b == ("y", K("range(m)"), "x", K("range(n)"), [K("val[x,y]=next(values)")])
+    ok = b == ("m", "n", ["val[<inner>,<outer>]=next(values)"])
     rep.ob("R2", "read_2d: y outer, x inner, element [x, y]", ok, r2f.site(), str(b), key="nest/read")
     ok = K("nx,ny=val.shape") in [T(mod, s) for s in w2.node.body] and K("val=zeros([n,m])") in [T(gm, s) for s in r2f.node.body]
     rep.ob("R2", "extents: writer (nx, ny) = val.shape; reader allocates (n, m) and is called with (nx, ny)", ok, w2.site(), "", key="nest/extents")
     w1 = mod.funcs.get("write_1d")
-    ok = [T(mod, s) for s in w1.node.body if not isinstance(s, ast.Expr) or not isinstance(s.value, ast.Constant)] == [K("foriinrange(len(val)):out.write(val[i])"), K("out.newline()")]
-    rep.ob("R2", "write_1d writes the elements in index order and ends the line", ok, w1.site(), "", key="nest/write_1d")
+    stmts = [s_ for s_ in w1.node.body if not (isinstance(s_, ast.Expr) and isinstance(s_.value, ast.Constant))]
+    ok, detail = False, "body is not one loop followed by out.newline()"
+    if len(stmts) == 2 and isinstance(stmts[0], ast.For) and not stmts[0].orelse and T(mod, stmts[1]) == K("out.newline()") and len(stmts[0].body) == 1:
+        try:
+            env = loop_env(w1.node, stmts[0])
+            c = stmts[0].body[0].value if isinstance(stmts[0].body[0], ast.Expr) else None
+            written = value(c.args[0], env) if isinstance(c, ast.Call) and T(mod, c.func) == "out.write" and len(c.args) == 1 else None
+            whole = isinstance(stmts[0].iter, ast.Name) or T(mod, stmts[0].iter) in (K("range(len(val))"), K("enumerate(val)"))
+            ok = written == "<val[i]>" and whole
+            detail = "i-th value written: %s; loop over %s" % (written, T(mod, stmts[0].iter))
+        except NoElement as e:
+            detail = "unmodelled loop: %s" % e
+    rep.ob("R2", "write_1d writes the elements in index order and ends the line", ok, w1.site(), detail, key="nest/write_1d")
     ok = K("out.newline()") in [T(mod, s) for s in w2.node.body]
     rep.ob("R2", "write_2d ends the line after the array", ok, w2.site(), "", key="nest/write_2d-newline")
 
 
 # ---------------------------------------------------------------------------------
+class _Unmodelled(Exception):
+    pass
+
+
+def _string_result(mod, f, nonneg):
+    """the string a one-argument formatting function returns for a non-negative / negative
+    argument, as a list of pieces: literal strings and ("fmt", "<%-format applied to the argument>").
+    The function is followed statement by statement (effects view); its only decision is the sign
+    test of its argument."""
+    from ..stores import effects
+    arg = f.node.args.args[0].arg
+    env = {}
+
+    def truth(c):
+        t = T(mod, c)
+        table = {K("%s>=0.0" % arg): nonneg, K("%s>=0" % arg): nonneg, K("%s<0.0" % arg): not nonneg, K("%s<0" % arg): not nonneg,
+                 K("not %s>=0.0" % arg): not nonneg, K("not %s<0.0" % arg): nonneg}
+        if t not in table:
+            raise _Unmodelled("condition " + t)
+        return table[t]
+
+    def ev(n):
+        if isinstance(n, ast.Constant) and isinstance(n.value, str):
+            return [n.value] if n.value else []
+        if isinstance(n, ast.Name) and n.id in env:
+            return list(env[n.id])
+        if isinstance(n, ast.BinOp) and isinstance(n.op, ast.Add):
+            return ev(n.left) + ev(n.right)
+        if isinstance(n, ast.BinOp) and isinstance(n.op, ast.Mod) and isinstance(n.left, ast.Constant) and isinstance(n.right, ast.Name) and n.right.id == arg:
+            return [("fmt", n.left.value)]
+        if isinstance(n, ast.IfExp):
+            return ev(n.body) if truth(n.test) else ev(n.orelse)
+        raise _Unmodelled("expression " + T(mod, n)[:60])
+
+    for e in effects(f.node, inline=False):
+        if not all(truth(c) for c in e.conds):
+            continue
+        if e.kind == "store" and isinstance(e.target, ast.Name):
+            env[e.target.id] = ev(e.value)
+        elif e.kind == "augstore" and isinstance(e.target, ast.Name) and isinstance(e.node.op, ast.Add):
+            env[e.target.id] = env.get(e.target.id, []) + ev(e.value)
+        elif e.kind == "return":
+            out = ev(e.value)
+            # adjacent literals are one literal
+            merged = []
+            for p_ in out:
+                if merged and isinstance(p_, str) and isinstance(merged[-1], str):
+                    merged[-1] += p_
+                else:
+                    merged.append(p_)
+            return merged
+        elif e.kind in ("call", "raise"):
+            raise _Unmodelled("effect " + e.kind)
+    raise _Unmodelled("no return reached")
+
+
 def source_formats(prog):
     mod = prog.module(FU)
     f2s = mod.funcs.get("f2s")
@@ -265,28 +378,55 @@ def source_formats(prog):
     nv = mod.funcs.get("next_value")
     if not (f2s and co and nv):
         raise AnalysisError("f2s / ChunkOutput.write / next_value not found")
-    # float format and sign-space rule
+    # float format and sign-space rule: evaluate f2s for a non-negative and for a negative argument
     ffmt = None
     for n in ast.walk(f2s.node):
         if isinstance(n, ast.BinOp) and isinstance(n.op, ast.Mod) and isinstance(n.left, ast.Constant) and isinstance(n.left.value, str):
             ffmt = n.left.value
-    space_rule = any(isinstance(n, ast.If) and T(mod, n.test) == K("f>=0.0") and not n.orelse and isinstance(n.body[0], ast.AugAssign) and isinstance(n.body[0].op, ast.Add)
-                     and isinstance(n.body[0].value, ast.Constant) and n.body[0].value.value == K(" ") for n in ast.walk(f2s.node))
-    # int prefix
+    try:
+        pos, neg = _string_result(mod, f2s, True), _string_result(mod, f2s, False)
+        space_rule = ffmt is not None and pos == [" ", ("fmt", ffmt)] and neg == [("fmt", ffmt)]
+    except _Unmodelled:
+        space_rule = False
+    # int prefix: the string written on the isinstance(value, int) arm (helper methods spliced in)
+    from ..stores import effects
     iprefix = None
-    for n in ast.walk(co.node):
-        if isinstance(n, ast.If) and T(mod, n.test) == K("isinstance(value,int)"):
-            c = n.body[0].value
-            a = c.args[0]
+    for e in effects(co.node, inline=False):
+        if e.kind == "call" and T(mod, e.value.func) == K("self.fh.write") and [T(mod, c) for c in e.conds if not isinstance(c, str)][-1:] == [K("isinstance(value,int)")]:
+            a = e.value.args[0]
             if isinstance(a, ast.BinOp) and isinstance(a.left, ast.Constant) and T(mod, a.right) == K("str(value)"):
                 iprefix = a.left.value
-            els = T(mod, n.orelse[0]) if n.orelse else None
     pattern = None
+    pname = None
     for n in ast.walk(nv.node):
         if isinstance(n, ast.Call) and _dotted(n.func) == "re.compile" and isinstance(n.args[0], ast.Constant):
             pattern = n.args[0].value
-    discr = any(isinstance(n, ast.If) and T(mod, n.test) == K('"."inmatch') and T(mod, n.body[0]) == K("yieldfloat(match)") and T(mod, n.orelse[0]) == K("yieldint(match)") for n in ast.walk(nv.node))
-    findall = any(isinstance(n, ast.Call) and T(mod, n.func) == "pattern.findall" for n in ast.walk(nv.node))
+            pname = "pattern"
+    if pattern is None:
+        # a module-level compiled pattern used by the reader
+        used = {x.id for x in ast.walk(nv.node) if isinstance(x, ast.Name)}
+        for st in mod.tree.body:
+            if isinstance(st, ast.Assign) and len(st.targets) == 1 and isinstance(st.targets[0], ast.Name) and st.targets[0].id in used and isinstance(st.value, ast.Call) \
+                    and _dotted(st.value.func) == "re.compile" and isinstance(st.value.args[0], ast.Constant):
+                pattern, pname = st.value.args[0].value, st.targets[0].id
+    # every token goes through one test `"." in <text>`: float(<text>) if it holds, int(<text>) otherwise
+    discr = False
+    for n in ast.walk(nv.node):
+        if isinstance(n, (ast.If, ast.IfExp)) and isinstance(n.test, ast.Compare) and len(n.test.ops) == 1 and isinstance(n.test.ops[0], ast.In) \
+                and isinstance(n.test.left, ast.Constant) and n.test.left.value == ".":
+            x = T(mod, n.test.comparators[0])
+            yes = n.body if isinstance(n, ast.IfExp) else (n.body[0].value.value if len(n.body) == 1 and isinstance(n.body[0], ast.Expr) and isinstance(n.body[0].value, ast.Yield) else None)
+            no = n.orelse if isinstance(n, ast.IfExp) else (n.orelse[0].value.value if len(n.orelse) == 1 and isinstance(n.orelse[0], ast.Expr) and isinstance(n.orelse[0].value, ast.Yield) else None)
+            discr = yes is not None and no is not None and T(mod, yes) == "float(%s)" % x and T(mod, no) == "int(%s)" % x
+    # the tokens are all non-overlapping matches of the pattern, left to right: findall, or finditer + group(0)
+    findall = False
+    for n in ast.walk(nv.node):
+        if isinstance(n, ast.Call) and isinstance(n.func, ast.Attribute) and isinstance(n.func.value, ast.Name) and n.func.value.id == pname:
+            if n.func.attr == "findall":
+                findall = True
+            elif n.func.attr == "finditer":
+                findall = any(isinstance(g, ast.Call) and isinstance(g.func, ast.Attribute) and g.func.attr == "group" and (not g.args or (isinstance(g.args[0], ast.Constant) and g.args[0].value == 0))
+                              for g in ast.walk(nv.node))
     chunk = None
     init = mod.funcs.get("ChunkOutput.__init__")
     for a, d in zip(init.node.args.args[-2:], init.node.args.defaults[-2:]):
@@ -368,8 +508,18 @@ def r3(prog, rep, thorough=False):
            "failing: %s" % bad[:2], key="tokens/concatenation")
     # (c) chunking: newline only after a complete token
     co = sf["co"]
-    body = [T(mod, s) for s in co.node.body]
-    ok = body[-2:] == [K("self.counter+=1"), K('ifself.counter==self.chunk:self.fh.write("\\n")self.counter=0')] and sf["chunk"] == 5
+    from ..stores import effects
+    meths = {q.split(".")[-1]: g.node for q, g in mod.funcs.items() if q.startswith("ChunkOutput.") and q.count(".") == 1}
+    tail = []
+    for e in effects(co.node, inline=False, methods=meths):
+        cs = [T(mod, c) for c in e.conds if not isinstance(c, str)]
+        if cs and cs[0] == K("isinstance(value, list)"):
+            continue  # the list arm writes element by element through this same method
+        cs = [c for c in cs if c != K("not isinstance(value, list)")]
+        tail.append((e.kind, T(mod, e.target) if e.target is not None else None, T(mod, e.value) if e.value is not None else None, tuple(cs)))
+    full = (K("self.counter==self.chunk"),)
+    ok = tail[-3:] == [("augstore", "self.counter", "1", ()), ("call", None, K('self.fh.write("\\n")'), full), ("store", "self.counter", "0", full)] and sf["chunk"] == 5 \
+        and not any(k == "call" and v == K('self.fh.write("\\n")') for k, t_, v, c in tail[:-3])
     rep.ob("R3", "a newline is written only after a complete token, every 5 values", ok, co.site(), "", key="tokens/chunking")
     # reader iterates lines: tokens never span lines (previous rule) and empty lines yield nothing
     nv = sf["nv"]
